@@ -2,6 +2,7 @@
 package main
 
 import (
+	"encoding/json"
 	"fmt"
 	"os"
 	"runtime/pprof"
@@ -47,6 +48,31 @@ func main() {
 		fmt.Println("unknown property", id)
 		os.Exit(2)
 	}
+	replayKey := ""
+	if tier == "replay" {
+		// vcheck <id> replay <file>: re-run the check with the recorded tier and seed
+		if len(os.Args) < 4 {
+			fmt.Println("usage: vcheck <property> replay <replay file>")
+			os.Exit(2)
+		}
+		b, err := os.ReadFile(os.Args[3])
+		if err != nil {
+			fmt.Println(err)
+			os.Exit(2)
+		}
+		var rec struct {
+			Property string `json:"property"`
+			Key      string `json:"key"`
+			Tier     string `json:"tier"`
+			Seed     int64  `json:"seed"`
+		}
+		if err := json.Unmarshal(b, &rec); err != nil || rec.Property != id {
+			fmt.Println("not a replay file of", id, err)
+			os.Exit(2)
+		}
+		tier, replayKey = rec.Tier, rec.Key
+		os.Setenv("VERIF_SEED", fmt.Sprint(rec.Seed))
+	}
 	if tier != "quick" && tier != "thorough" {
 		fmt.Println("unknown tier", tier)
 		os.Exit(2)
@@ -57,6 +83,7 @@ func main() {
 		defer pprof.StopCPUProfile()
 	}
 	r := ev.Start(id, tier, c.level)
+	r.ReplayKey = replayKey
 	defer func() {
 		if p := recover(); p != nil {
 			fmt.Printf("INCONCLUSIVE: property=%s harness panic: %v\n", id, p)
